@@ -145,12 +145,13 @@ def gtom(adj, nr_steps):
     if nr_steps == 0:
         return bm
     else:
-        for steps in range(2, nr_steps):
+        for steps in range(2, nr_steps + 1):
+            bm_prev = bm_aux.copy()  # neighborhoods after the previous step
             for i in range(nr_nodes):
                 # neighbors of node i
-                ng_col, = np.where(bm_aux[i, :] == 1)
+                ng_col, = np.where(bm_prev[i, :] == 1)
                 # neighbors of neighbors of node i
-                nng_row, nng_col = np.where(bm_aux[ng_col, :] == 1)
+                nng_row, nng_col = np.where(bm[ng_col, :] == 1)
                 new_ng = np.setdiff1d(nng_col, (i,))
 
                 # neighbors of neighbors of i become considered neighbors of i
